@@ -264,6 +264,20 @@ def graph_job(prop, tier, seed, job, policy, known, acc):
             acc.setdefault('fixed_findings', []).append(div.get('dev'))
             continue
         if div['kind'] == 'init':
+            fields = {d_['field'].split('.')[0] for d_ in div.get('diffs', [])}
+            if fields and fields <= set(job.get('init_fields', [])):
+                # what a freshly constructed contract reports about itself (not something the harness builds)
+                if walks_by_id is None:
+                    walks_by_id = {}
+                    with open(wpath) as f:
+                        f.readline()
+                        for l in f:
+                            w = json.loads(l)
+                            walks_by_id[w['id']] = w
+                reason = 'the freshly constructed contract does not report what it was constructed with: %s' % sorted(fields)
+                path = write_replay_file(prop, tier, seed, module, inst, walks_by_id[r['walk']], r, 'violation', reason)
+                acc['violations'].append({'replay': path, 'reason': reason, 'spec': spec, 'act': None})
+                continue
             raise ToolError('the harness cannot construct the initial state of %s: %s' % (spec, json.dumps(div)[:600]))
         if walks_by_id is None:
             walks_by_id = {}
